@@ -251,6 +251,8 @@ type c15Case struct {
 	Binary   *c15BinObs `json:"binary_run,omitempty"`
 }
 
+const c15RetryBatch = 24
+
 const c15ClientTimeout = "500ms" // pint adds one second to it for the request context
 const c15BinaryTimeout = "1500ms" // separate process under load: more head room
 
@@ -1019,6 +1021,7 @@ func runC15(args []string) int {
 		if len(binIdx) > nBin {
 			binIdx = binIdx[:nBin]
 		}
+		var binRetries atomic.Int64
 		go func() {
 			defer close(binDone)
 			tb := time.Now()
@@ -1028,7 +1031,8 @@ func runC15(args []string) int {
 				c := c15Case{ID: src.ID, Endpoint: src.Endpoint, Required: src.Required, Modes: src.Modes, Judged: true}
 				dir := fmt.Sprintf("%s/bin/%04d", cwd, c.ID)
 				o := c15RunBinary(dir, &c)
-				for k := 0; k < 2 && len(c15BinOracle(&c, o)) > 0; k++ { // again before reporting (timing head room)
+				// again before reporting (timing head room); bounded: once c15RetryBatch/2 cases needed it, failures are reported as observed
+				for k := 0; k < 2 && len(c15BinOracle(&c, o)) > 0 && binRetries.Add(1) <= c15RetryBatch; k++ {
 					time.Sleep(300 * time.Millisecond)
 					o = c15RunBinary(dir, &c)
 				}
@@ -1062,19 +1066,53 @@ func runC15(args []string) int {
 	// A judged case that fails the oracle is run again (up to two more times, with far fewer cases in parallel)
 	// before it is reported: the only timing dependence is a healthy upstream needing longer than the client
 	// timeout on an overloaded machine.
+	// Bounded: at most c15RetryBatch failing cases (cheapest first: fewest timeout upstreams) are re-run per round; as
+	// soon as one of them fails again the failure is CONFIRMED and the remaining ones are reported as observed — a
+	// change that breaks hundreds of cases must not cost hundreds of timeouts before it is reported.
 	retried := 0
-	for k := 0; k < 2; k++ {
+	confirmed := false
+	tried := map[int]bool{}
+	for round := 0; round < 40 && !confirmed; round++ {
 		var again []int
 		for i := range cases {
-			if cases[i].Judged && len(c15Oracle(&cases[i])) > 0 {
+			if cases[i].Judged && !tried[i] && len(c15Oracle(&cases[i])) > 0 {
 				again = append(again, i)
 			}
 		}
 		if len(again) == 0 {
 			break
 		}
-		retried += len(again)
-		parallel(len(again), 24, func(j int) { c15Run(&cases[again[j]]) })
+		sort.SliceStable(again, func(a, b int) bool { return nTimeouts(&cases[again[a]]) < nTimeouts(&cases[again[b]]) })
+		if len(again) > c15RetryBatch {
+			again = again[:c15RetryBatch]
+		}
+		for k := 0; k < 2; k++ {
+			var still []int
+			for _, i := range again {
+				if len(c15Oracle(&cases[i])) > 0 {
+					still = append(still, i)
+				}
+			}
+			if len(still) == 0 {
+				break
+			}
+			retried += len(still)
+			parallel(len(still), 24, func(j int) { c15Run(&cases[still[j]]) })
+		}
+		for _, i := range again {
+			tried[i] = true
+			if len(c15Oracle(&cases[i])) > 0 {
+				confirmed = true
+			}
+		}
+	}
+	notRerun := 0
+	if confirmed {
+		for i := range cases {
+			if cases[i].Judged && !tried[i] && len(c15Oracle(&cases[i])) > 0 {
+				notRerun++
+			}
+		}
 	}
 	<-binDone
 	if binNote != "" {
@@ -1083,7 +1121,7 @@ func runC15(args []string) int {
 	for i, o := range binObs {
 		cases[i].Binary = o
 	}
-	rep.Notes = append(rep.Notes, fmt.Sprintf("ran %d cases in %.1fs with %d workers; %d re-runs of oracle-failing cases; %d observations discarded because a non-timeout upstream hit the client deadline", len(cases), time.Since(t0).Seconds(), workers, retried, c15SpuriousRuns.Load()))
+	rep.Notes = append(rep.Notes, fmt.Sprintf("ran %d cases in %.1fs with %d workers; %d re-runs of oracle-failing cases (confirmed=%v, oracle-failing but not re-run and not reported: %d); %d observations discarded because a non-timeout upstream hit the client deadline", len(cases), time.Since(t0).Seconds(), workers, retried, confirmed, notRerun, c15SpuriousRuns.Load()))
 
 	cw := newCaseWriter(cwd, "Run.C15", 400)
 	keep := len(cases) <= 1500
@@ -1133,7 +1171,8 @@ func runC15(args []string) int {
 			}
 		}
 		if c.Judged {
-			if bad := c15Oracle(c); len(bad) > 0 {
+			// once a failure is confirmed by re-runs only re-run cases are reported (the others are counted in the notes)
+			if bad := c15Oracle(c); len(bad) > 0 && (!confirmed || tried[i]) {
 				rep.fail(fmt.Sprint(c.ID), fmt.Sprintf("%s %v required=%v: %s", c.Endpoint, names, c.Required, strings.Join(bad, "; ")), c)
 				rep.Cases[fmt.Sprint(c.ID)] = c
 			}
